@@ -13,7 +13,7 @@ LEVEL = "exploration"
 TECHNIQUE = "deviation-bounded exhaustive enumeration of constructor arguments (those of the released signatures, plus any parameter the class has gained since, over 6 values) x block sizes x ATA transfer rules; buffer lengths recomputed from the CDB by the independent spec decoder and each command handed to both stand-in transports"
 RULE = ("42 classes x offering tables x argument tuples with at most k deviations (k=1 quick, 2 thorough) x block sizes {1,512,520,4096} for "
         "block commands (products above 2^22 bytes skipped) ; ATA PASS-THROUGH 12/16: full product t_length(4) x byte_block x t_type x t_dir x "
-        "data given/omitted x blocksize {0,512,4096} x extra_tl {None,3} x count/features {0,1,2,max8,(max16)}, and PROTOCOL 0..15 x t_length x byte_block x t_type x t_dir x data given/omitted x extra_tl ; MODE SELECT / PR OUT / EXTENDED COPY "
+        "data given/omitted x blocksize {0,512,4096} x extra_tl {None,3} x count/features {0,1,2,max8,(max16)}, and write data as mmap (fresh / position at the end / in the middle) and array('B'), each used for two commands in a row; PROTOCOL 0..15 x t_length x byte_block x t_type x t_dir x data given/omitted x extra_tl ; MODE SELECT / PR OUT / EXTENDED COPY "
         "with parameter dictionaries of several sizes. Every constructed command is executed on an SG_IO and an iSCSI device (stand-ins), which take "
         "len() of both buffers; the iSCSI task direction/length is compared with the same numbers; afterwards the result is decoded (unmarshall) and both buffers must still be the same objects of the same length; 12 data-in facade methods on both transports answered with a well-formed response and 8 truncated / garbage ones (a length field announcing more than was transferred): every command reaching the target and the command handed back satisfy the same relation; two facades with block sizes 512 / 4096 alive at once (3 creation orders), READ/WRITE(10,12,16) on each in turn. Non-trivial = a deviation or a non-default "
         "block size; distinct = distinct (class, table, tuple, blocksize).")
@@ -190,6 +190,53 @@ def build(name, st, key, point, bs, variant):
         return e, kw
 
 
+def run_payload(name, st, key, kind, tl):
+    """write data handed over in a container that is a byte buffer and more (an mmap is also a file object with a position; an
+    array.array has items wider than a byte): the data-out buffer still holds exactly the bytes the CDB announces"""
+    import array
+    import mmap
+    ensure_rigs()
+    bs = 512
+    n = bs * tl if name.startswith("Write1") else bs
+    raw = bytes((i * 7 + 3) & 0xFF for i in range(n))
+    if kind.startswith("mmap"):
+        data = mmap.mmap(-1, n)
+        if kind == "mmapend":
+            data.write(raw)
+        elif kind == "mmapmid":
+            data[:] = raw
+            data.seek(16)
+        else:
+            data[:] = raw
+    elif kind == "arrayB":
+        data = array.array("B", raw)
+    else:
+        data = bytearray(raw)
+    cls = CS.get_class(name)
+    op = CS.get_opcode(st, key)
+    kw = CS.build_kwargs(name, dict(CS.baseline(name), **({"tl": tl} if name.startswith("Write1") else {})), blocksize=bs)
+    kw["blocksize"] = bs
+    kw["data"] = data
+    where = "%s(tl=%d, blocksize=512, data=<%s of %d bytes>) via %s.%s" % (name, tl, kind, n, st, key)
+    out = []
+    for attempt in (1, 2):          # the same container used for two commands in a row
+        try:
+            cmd = cls(op, **kw)
+        except Exception as e:   # noqa: BLE001
+            return out + [("payload/construct/%s" % name, "%s (use #%d) raised %s: %s" % (where, attempt, type(e).__name__, e))]
+        try:
+            got = bytes(cmd.dataout)
+        except Exception as e:   # noqa: BLE001
+            return out + [("payload/buffer_type/%s" % name, "%s (use #%d): data-out is %s: %s" % (where, attempt, type(cmd.dataout).__name__, e))]
+        if len(cmd.dataout) != n or got != raw:
+            out.append(("payload/dataout/%s" % name, "%s (use #%d): the CDB announces %d bytes, data-out holds %d%s"
+                        % (where, attempt, n, len(cmd.dataout), "" if got == raw[:len(got)] else " (and other content)")))
+            return out
+        out += [("payload/" + k, w) for k, w in transports(cmd, where, name)]
+    return out
+
+
+PAYLOAD_KINDS = ("mmap", "mmapend", "mmapmid", "arrayB")
 NEW_PARAM_VALUES = (0, 1, 12, 255, 512, 4096)
 
 
@@ -232,6 +279,8 @@ def run_new_param(name, st, key, param, value):
 def run_case(case, obs=None):
     if case[0] == "new_param":
         return run_new_param(*case[1:])
+    if case[0] == "payload":
+        return run_payload(*case[1:])
     ensure_rigs()
     name, st, key, point, bs, variant = case
     where = "%s(%r, blocksize=%r, variant=%r) via %s.%s" % (name, point, bs, variant, st, key)
@@ -453,6 +502,10 @@ def run_partition(part, tier, seed):
             acc.violation(kk, w, case)
         acc.outcome((name, tuple(obs), tuple(x for x, _ in v)))
 
+    if name in ("Write10", "Write12", "Write16", "WriteSame10", "WriteSame16"):
+        for kind in PAYLOAD_KINDS:
+            for tl in (1, 2):
+                do(["payload", name, st, key, kind, tl], True)
     for param in new_parameters(name):
         for value in NEW_PARAM_VALUES:
             do(["new_param", name, st, key, param, value], True)
